@@ -308,6 +308,39 @@ func requireFuncs(f *ast.File, path string, sigs map[string]int) {
 	}
 }
 
+// keepsNegative reports whether paramDecremented returns a negative literal position unchanged:
+//
+//	if asInt < 0 { return param }
+func keepsNegative(f *ast.File) bool {
+	found := false
+	for _, d := range f.Decls {
+		fd, ok := d.(*ast.FuncDecl)
+		if !ok || fd.Name.Name != "paramDecremented" || fd.Body == nil {
+			continue
+		}
+		ast.Inspect(fd.Body, func(n ast.Node) bool {
+			is, ok := n.(*ast.IfStmt)
+			if !ok || is.Init != nil || is.Else != nil || len(is.Body.List) != 1 {
+				return true
+			}
+			be, ok := is.Cond.(*ast.BinaryExpr)
+			if !ok || be.Op != token.LSS {
+				return true
+			}
+			x, okx := be.X.(*ast.Ident)
+			y, oky := be.Y.(*ast.BasicLit)
+			rs, okr := is.Body.List[0].(*ast.ReturnStmt)
+			if okx && oky && okr && x.Name == "asInt" && y.Value == "0" && len(rs.Results) == 1 {
+				if id, ok := rs.Results[0].(*ast.Ident); ok && id.Name == "param" {
+					found = true
+				}
+			}
+			return true
+		})
+	}
+	return found
+}
+
 func extractTable(repo string, consts map[string]int) []entry {
 	path := filepath.Join(repo, "flows/definition/legacy/expressions/functions.go")
 	_, f := parseFile(path)
@@ -545,6 +578,8 @@ func main() {
 	consts := precConsts(vf, vpath)
 	requireFuncs(vf, vpath, map[string]int{"precedenceOf": 1, "asOperand": 2})
 	table := extractTable(*repo, consts)
+	_, ff := parseFile(filepath.Join(*repo, "flows/definition/legacy/expressions/functions.go"))
+	keepsNeg := keepsNegative(ff)
 
 	mpath := filepath.Join(*repo, "flows/definition/legacy/expressions/migrate.go")
 	_, mf := parseFile(mpath)
@@ -599,6 +634,7 @@ func main() {
 		fmt.Fprintf(&sb, "  (%s, %s)%s  (* %s -> %s *)\n", coqStr(kv[0]), coqStr(kv[1]), sep, comment(kv[0]), comment(kv[1]))
 	}
 	sb.WriteString("].\n\n")
+	fmt.Fprintf(&sb, "(* functions.go paramDecremented: `if asInt < 0 { return param }` present? *)\nDefinition decremented_keeps_negative : bool := %v.\n\n", keepsNeg)
 	sb.WriteString("(* visitor.go: const ( precConcatenation = iota + 1; ... ) *)\n")
 	for _, n := range precNames {
 		cn := "prec_" + strings.ToLower(n[4:])
